@@ -53,10 +53,11 @@ FailsPS(o) ==
 FailsPSLog(o) ==
   LET c == [k |-> o.k, q |-> o.q, r |-> o.r, l2 |-> o.l2, mu |-> o.mu] IN
   Check("hencky:scale", o.ksig = HSigScale(c) /\ o.kpk2 = HPK2Scale(c) /\ o.kpk1 = HPK1Scale(c) /\ o.J0 = Det(OfRowMajor(o.F0)))
-  \cup Check("hencky:plane-stress:shape", Len(o.calls) = 3 /\ \A i \in 1..Len(o.calls) : o.calls[i].sm = i - 1)
-  \cup UNION {LET x == o.calls[i] IN
+  \cup Check("hencky:plane-stress:shape", Len(o.pscalls) = 3 /\ \A i \in 1..Len(o.pscalls) : o.pscalls[i].sm = i - 1)
+  \cup (IF ~ShapeOK(o) THEN {"shape"} ELSE ClassFails(o) \cup ExactFails(o, LAMBDA sm : HStress(sm, c), HW(c)))
+  \cup UNION {LET x == o.pscalls[i] IN
               Check("hencky:plane-stress:stress:" \o MeasureName(x.sm), x.ret = 1 /\ x.tight /\ SeqEq(x.v, HStress(x.sm, c)))
-              \cup Check("hencky:plane-stress:axial-strain", x.etight /\ x.ezz2 = o.kax) : i \in 1..Len(o.calls)}
+              \cup Check("hencky:plane-stress:axial-strain", x.etight /\ x.ezz2 = o.kax) : i \in 1..Len(o.pscalls)}
   \cup Check("hencky:call-failed", o.allok)
 FailsLog(o) ==
   LET c == [k |-> o.k, q |-> o.q, r |-> o.r, l2 |-> o.l2, mu |-> o.mu]
